@@ -302,6 +302,7 @@ type funcAnalysis struct {
 type decVar struct {
 	born   token.Pos
 	strict token.Pos // 0: not strict; 1: born strict (strict helper); else position of KnownFields(true)
+	never  bool      // KnownFields was called with something else than the literal true
 }
 
 // helperCall: `h(…)` with h a constructor helper of this package
@@ -371,6 +372,18 @@ func analyseFunc(f *srcFunc, helpers map[string]bool, isHelper bool) funcAnalysi
 		vars[id.Name] = d
 		allowed[id.Pos()] = true
 	}
+	// field names and composite-literal keys are not variable uses
+	ast.Inspect(fd.Body, func(n ast.Node) bool {
+		switch x := n.(type) {
+		case *ast.SelectorExpr:
+			allowed[x.Sel.Pos()] = true
+		case *ast.KeyValueExpr:
+			if id, ok := x.Key.(*ast.Ident); ok {
+				allowed[id.Pos()] = true
+			}
+		}
+		return true
+	})
 	// pass 1 (source order): bindings
 	ast.Inspect(fd.Body, func(n ast.Node) bool {
 		switch x := n.(type) {
@@ -390,7 +403,7 @@ func analyseFunc(f *srcFunc, helpers map[string]bool, isHelper bool) funcAnalysi
 		return true
 	})
 	strictAt := func(d *decVar, pos token.Pos) bool {
-		return d.strict == 1 || (d.strict != 0 && d.strict < pos)
+		return !d.never && (d.strict == 1 || (d.strict != 0 && d.strict < pos))
 	}
 	// pass 2: KnownFields calls (before the uses are judged)
 	ast.Inspect(fd.Body, func(n ast.Node) bool {
@@ -421,11 +434,10 @@ func analyseFunc(f *srcFunc, helpers map[string]bool, isHelper bool) funcAnalysi
 		switch {
 		case !isLit:
 			problem("KnownFields called with a non-literal or false argument")
-			d.strict = 0
-			d.born = token.Pos(1 << 40) // never strict
+			d.never = true
 		case !strictUnconditional(fd, call.Pos()):
 			// conditional strictness does not count (and is not an error by itself)
-		case d.strict == 0 && d.born < token.Pos(1<<40):
+		case d.strict == 0:
 			d.strict = call.Pos()
 		}
 		return true
@@ -433,23 +445,6 @@ func analyseFunc(f *srcFunc, helpers map[string]bool, isHelper bool) funcAnalysi
 	// pass 3: uses
 	ast.Inspect(fd.Body, func(n ast.Node) bool {
 		switch x := n.(type) {
-		case *ast.ReturnStmt:
-			if !isHelper {
-				return true
-			}
-			if len(x.Results) != 1 {
-				problem("constructor helper with a naked or multi-value return")
-				a.returnsStrict = false
-				return true
-			}
-			d, ok := produce(x.Results[0])
-			if !ok {
-				if id, isIdent := x.Results[0].(*ast.Ident); !isIdent || id.Name != "nil" {
-					problem("constructor helper returns something that is not followed")
-				}
-				return true
-			}
-			_ = d
 		case *ast.CallExpr:
 			if isPkgCall(x, alias, "Unmarshal") {
 				target := "?"
@@ -503,25 +498,21 @@ func analyseFunc(f *srcFunc, helpers map[string]bool, isHelper bool) funcAnalysi
 				return true
 			}
 			if len(ret.Results) != 1 {
+				problem("constructor helper with a naked or multi-value return")
 				a.returnsStrict = false
 				return true
 			}
 			if id, isIdent := ret.Results[0].(*ast.Ident); isIdent && id.Name == "nil" {
 				return true // a nil decoder cannot decode anything
 			}
-			var d *decVar
-			if id, isIdent := ret.Results[0].(*ast.Ident); isIdent {
-				d = vars[id.Name]
-			} else if strict, ok := helperCall(ret.Results[0], helpers); ok {
-				d = &decVar{}
-				if strict {
-					d.strict = 1
-				}
-			} else if isPkgCall(ret.Results[0], alias, "NewDecoder") {
-				d = &decVar{}
-			}
+			d, ok := produce(ret.Results[0])
 			any = true
-			if d == nil || !strictAt(d, ret.Pos()) {
+			if !ok {
+				problem("constructor helper returns something that is not followed")
+				a.returnsStrict = false
+				return true
+			}
+			if !strictAt(d, ret.Pos()) {
 				a.returnsStrict = false
 			}
 			return true
